@@ -171,6 +171,16 @@ def run(facts, chk, tier, only=None):
     # the union (interpreted; shared with C01.pal).  Was a shape rule on the IUPAC[...] index expression inside the closure.
     from . import c01
     chk.guard('C15.use', 'C15.use:tables', lambda: c01.check_tables(facts, chk, 'C15.use'))
+    # the distance weights in use: variant_dist on every pair of codes == 1 - sum_b p1(b) p2(b), p uniform over the code's base set (N: no weight)
+    from . import c14
+    r = chk.guard('C15.use', 'C15.use:variant_dist', lambda: c14.pair_table(facts))
+    if r is not None:
+        n_, bad_ = r
+        if bad_:
+            chk.violation('C15.use', 'C15.use:variant_dist', where='merge_ska_array::MergeSkaArray::variant_dist', evals=n_,
+                          detail='(code1, code2, constant, got, expected from uniform weights) = %s (%d cells differ)' % (bad_[0], len(bad_)))
+        else:
+            chk.ok('C15.use', 'C15.use:variant_dist', 'merge_ska_array::MergeSkaArray::variant_dist', 'distance contribution of every pair of codes = 1 - overlap of uniform weights over the codes\' base sets (16 x 16 x 2 cells)', evals=n_)
 
     def use_map():
         cl = facts.closures_of('ska_ref::RefSka::map')
